@@ -72,6 +72,18 @@ def check(rep, ctx):
             diffs = [x for x in cmp_rw(W.nr(pf["r"]), W.nw(pf["w"]), f["name"]) if "conversion" not in x]
             rep.check(R_S, not diffs, construct=f"{key}.{f['name']}", stmt=f"{pf['r_codec']['fn']} / {pf['w_codec']['fn']}",
                       message="; ".join(diffs), **W.codec_loc(pf.get("w_codec")))
+    R_LD = rep.rule("C07-length-domain", "no field's reader rejects, and no field's writer refuses, a length the field's format carries "
+                    "(the message is lost in the middle of the stream otherwise)", floor=1500)
+    from .wire import length_domain_rows
+    for key, cls, plan in W.classes():
+        if plan["error"]:
+            continue
+        for item in W.fields(key, cls, plan):
+            pf, f = item["pf"], item["f"]
+            if pf is None or pf.get("r") is None or pf.get("w") is None:
+                continue
+            for ok_, c_, stmt_, msg_, loc_ in length_domain_rows(W, pf, f"{key}.{f['name']}"):
+                rep.check(R_LD, ok_, construct=c_, stmt=stmt_, message=msg_, instance=f"{key}.{f['name']}|{stmt_[:30]}", **loc_)
     W.finish(rep)
     rep.sample({"rule": "C07-w-capability", "effects": [e for e in eng["effects"] if e[0] == "w" and e[2] == "param"][:4]})
     rep.extra.update(depends_on="C01-a/b for byte-count agreement; C06-a for the decode side")
